@@ -20,6 +20,7 @@
   needed: an elided `'isA': t` assertion makes `add_type(t)` a no-op and `has_type(t)` false.
 -/
 import EnvVerif.Lemmas.ExtLemmas
+import EnvVerif.Props.C07
 namespace EnvVerif
 open Env AW ExtL
 
@@ -666,5 +667,62 @@ example : Inv InvL.toyHash InvL.sSubj ∧
   refine ⟨InvL.sSubj_inv, by decide +kernel, ?_, ?_, by decide +kernel⟩
   · intro x hx; simp [InvL.sSubj, newLeaf, Env.assertions] at hx
   · intro x hx; simp [InvL.sSubj, newLeaf, Env.assertions] at hx
+
+
+/-! ### the `Attachments` container: read from an envelope, written to an envelope -/
+
+section Container
+variable (h : Hash)
+
+/-- what `try_from_envelope` reads are assertion elements of the envelope -/
+theorem attachmentsOfEnvelope_mem {e : Env} {as : List Env} (hr : attachmentsOfEnvelope h e = .ok as) :
+    ∀ a ∈ as, a ∈ e.assertions := by
+  intro a ha
+  unfold attachmentsOfEnvelope attachmentsWith at hr
+  simp only at hr
+  generalize hv : (List.foldl (fun acc a => acc.bind fun _ => validateAttachment h a) (Res.ok ())
+    (assertionsWithPredicate e (newKnownValue h KV_ATTACHMENT))) = v at hr
+  cases v with
+  | ok u =>
+    simp only [Res.bind] at hr
+    injection hr with hr
+    subst hr
+    have := (List.mem_filter.mp ha).1
+    exact (AW.mem_awp.mp this).1
+  | err x => simp [Res.bind] at hr
+  | panic x => simp [Res.bind] at hr
+
+/-- adding elements that are all present already (by membership) leaves the envelope as it is -/
+theorem addAll_present (e : Env) (hc : Canon e) : ∀ (as : List Env), (∀ a ∈ as, a ∈ e.assertions) →
+    addAll h e as = .ok e
+  | [], _ => rfl
+  | a :: as, hm => by
+    have ha := hm a (List.mem_cons_self)
+    have h1 : addAssertionEnvelope h e a = .ok e :=
+      add_present h e a (InvL.canon_assertions_slotOk hc a ha) ⟨a, ha, rfl⟩
+    have ih := addAll_present e hc as (fun x hx => hm x (List.mem_cons_of_mem _ hx))
+    simp only [addAll, List.foldl_cons, Res.bind, h1] at ih ⊢
+    exact ih
+
+/-- **writing an envelope's own attachments back changes nothing** (the container's iteration order is irrelevant:
+every element is present already) -/
+theorem c19_container_writes_back {e : Env} {as : List Env} (hi : Inv h e)
+    (hr : attachmentsOfEnvelope h e = .ok as) : addToEnvelope h as e = .ok e := by
+  simp only [addToEnvelope, addAll_present h e hi.2 as (attachmentsOfEnvelope_mem h hr)]
+
+/-- ... also in any other order and with repetitions -/
+theorem c19_container_writes_back_any_order {e : Env} {as as' : List Env} (hi : Inv h e)
+    (hr : attachmentsOfEnvelope h e = .ok as) (hsub : ∀ a ∈ as', a ∈ as) : addToEnvelope h as' e = .ok e := by
+  simp only [addToEnvelope, addAll_present h e hi.2 as'
+    (fun a ha => attachmentsOfEnvelope_mem h hr a (hsub a ha))]
+
+/-- **the order in which the container yields its attachments does not matter** for any target envelope (the
+container is keyed by digest, so its values have pairwise distinct digests) -/
+theorem c19_container_order_independent (e : Env) (l1 l2 : List Env) (hi : Inv h e)
+    (hmem : ∀ a, a ∈ l1 ↔ a ∈ l2) (hinj : ∀ a ∈ l1, ∀ b ∈ l1, a.digest = b.digest → a = b) :
+    addToEnvelope h l1 e = addToEnvelope h l2 e := by
+  simp only [addToEnvelope, addAll_perm_strong h e l1 l2 hi hmem hinj]
+
+end Container
 
 end EnvVerif
